@@ -412,11 +412,21 @@ def i_TAY(i,fmap):
 
 @__npc
 def i_TRB(i,fmap):
-    raise NotImplementedError
+    # test and reset memory bits with A: Z from A&M, then M <- M & ~A
+    dst = i.operands[0]
+    val = fmap(dst)
+    a = fmap(A)
+    fmap[Z] = (a&val)==0
+    fmap[dst] = val&(~a)
 
 @__npc
 def i_TSB(i,fmap):
-    raise NotImplementedError
+    # test and set memory bits with A: Z from A&M, then M <- M | A
+    dst = i.operands[0]
+    val = fmap(dst)
+    a = fmap(A)
+    fmap[Z] = (a&val)==0
+    fmap[dst] = val|a
 
 @__npc
 def i_TSX(i,fmap):
